@@ -522,6 +522,9 @@ def _probes():
         """The four planes as CSR matrices over ONE shared pattern (the union of the non-zero positions), i.e. with
         explicitly stored zeros where a component vanishes - the caller's own scipy objects."""
         from scipy import sparse as sp_
+        A = A.copy()
+        A[::2, :, 1] = 0.0          # components that vanish where others do not: stored zeros in the shared pattern
+        A[:, ::2, 3] = 0.0
         mask = np.any(A != 0.0, axis=-1)
         rows, cols = np.nonzero(mask)
         return [sp_.csr_matrix((np.ascontiguousarray(A[rows, cols, c_]), (rows, cols)), shape=A.shape[:2]) for c_ in range(4)]
@@ -545,7 +548,7 @@ def probes():
     return _PROBE_CACHE["p"]
 
 
-N_PROBES = 131   # upper bound used by the generator; indices are taken modulo the real table length
+N_PROBES = 132   # upper bound used by the generator; indices are taken modulo the real table length
 
 
 @st.composite
@@ -826,7 +829,8 @@ def check_mutation(case):
         (isinstance(a, np.ndarray) and isinstance(b_, np.ndarray) and a.shape == b_.shape and a.dtype == b_.dtype)
         or (not isinstance(a, np.ndarray) and not isinstance(b_, np.ndarray) and not isinstance(a, L.utils.SparseQuaternionMatrix))
         for a, b_ in zip(args, args_new))
-    if compatible and any(isinstance(a, np.ndarray) for a in args):
+    # (a probe with scipy arguments is left out: their buffers are not overwritten here, so only part of the argument list would change)
+    if compatible and any(isinstance(a, np.ndarray) for a in args) and not any(hasattr(a, "getformat") for a in args):
         for a, b_ in zip(args, args_new):
             if isinstance(a, np.ndarray):
                 np.copyto(a, b_)
